@@ -1,0 +1,31 @@
+//go:build verif
+// +build verif
+
+package graph
+
+// VerifSnapshot returns independent copies of the graph's internal maps so
+// that a verification harness can check structural invariants. It is only
+// compiled with the "verif" build tag and deliberately does not use Copy.
+func (g *Graph) VerifSnapshot() (out, in map[interface{}]map[interface{}]int, hash map[interface{}]Vertex) {
+	out = make(map[interface{}]map[interface{}]int, len(g.adjacencyOut))
+	for k, set := range g.adjacencyOut {
+		m := make(map[interface{}]int, len(set))
+		for k2, w := range set {
+			m[k2] = w
+		}
+		out[k] = m
+	}
+	in = make(map[interface{}]map[interface{}]int, len(g.adjacencyIn))
+	for k, set := range g.adjacencyIn {
+		m := make(map[interface{}]int, len(set))
+		for k2, w := range set {
+			m[k2] = w
+		}
+		in[k] = m
+	}
+	hash = make(map[interface{}]Vertex, len(g.hash))
+	for k, v := range g.hash {
+		hash[k] = v
+	}
+	return out, in, hash
+}
